@@ -319,6 +319,9 @@ LATER = {
 WAVE5 = {'C01': 'Wave 5: runs in other environments (python -O, PYTHONOPTIMIZE=2, a user configuration with exact unit entries after wildcards); info files in Fortran E23.15 format; levelmax 21 and 24.', 'C03': 'Wave 5: uniformly fine meshes with tall and wide windows (dy given explicitly).', 'C04': 'Wave 5: several runs visited in one process, by absolute path and by the default relative path after chdir.', 'C05': 'Wave 5: a requested limit must be the grid edge also when the opposite limit is automatic.', 'C06': 'Wave 5: memory layout (strides, offset into the base buffer) is part of the canonical state; start state with a Vector built from the columns of one array.', 'C08': 'Wave 5: composite units grouped by dimension; stale look-alike configuration files next to the user configuration and in the working directory.', 'C09': 'Wave 5: n-d component arrays for norm in the quick tier.', 'C10': 'Wave 5: commutative functions must give the same outcome in both operand orders; a bare operand of add/subtract is a pure number.', 'C12': 'Wave 5: the same dataset loaded before with another level cap; level predicates as partial/callable/bound method.', 'C13': 'Wave 5: outputs with levelmax 21/24 and Fortran-format info files.', 'C14': 'Wave 5: a reduced case list re-run under python -O and PYTHONOPTIMIZE=2.', 'C16': 'Wave 5: in-place work on the extracted dataset must not reach the input.', 'C17': 'Wave 5: array-valued Quantity and bare ndarray right operands.', 'C20': 'Wave 5: keys ending in x or _x.'}
 
 
+WAVE6 = {'C01': 'Wave 6: variable names that begin with or extend names the units library knows.', 'C03': 'Wave 6: boxes of 2^-26 kpc, 2^-30 m and 2^30 pc (nothing is close to zero on an absolute scale).', 'C04': 'Wave 6: layer 2 at levelmax 14 with domains that are slivers of 64-32768 keys next to the first key of a level-3 search cube.', 'C05': 'Wave 6: data moved by 2^45 or scaled by 2^-30 (a range is degenerate only if its limits are equal).', 'C07': 'Wave 6: the numpy-function spelling (np.less ...) of every comparison.', 'C09': 'Wave 6: Vectors whose second and third components were attached after construction.', 'C10': 'Wave 6: a 0-d Array as the unit-carrying operand.', 'C11': 'Wave 6: slab thickness of very small numerical magnitude in its own unit.', 'C12': 'Wave 6: other groups named before/after mesh in the select dictionary.', 'C13': 'Wave 6: descriptors in which one name is the beginning of another.', 'C14': 'Wave 6: sink unit-line entries that are general expressions in m, l, t.', 'C15': 'Wave 6: name lists that only one reader of the group can satisfy; gravity files present.', 'C16': 'Wave 6: a group whose own positions are in another unit than those of the groups before it.', 'C17': 'Wave 6: in-place updates of 0-d and 1-element Arrays held by two groups.', 'C18': 'Wave 6: the configuration moved 2^40 away from the coordinate origin.', 'C19': 'Wave 6: matplotlib norm objects at layer and call level in unrendered calls.', 'C20': 'Wave 6: pairs handed to update() and the constructor as list, zip, generator and items view.'}
+
+
 def main():
     checks = []
     na = []
@@ -337,6 +340,8 @@ def main():
             note = note + " Added after seeded waves 3-4: " + LATER[pid]
         if pid in WAVE5:
             note = note + " " + WAVE5[pid]
+        if pid in WAVE6:
+            note = note + " " + WAVE6[pid]
         checks.append(
             {
                 "property_id": pid,
